@@ -191,9 +191,70 @@ func eqPassEdges(fn *ssa.Function, isX, isY func(ssa.Value) bool) eng.EdgeSet {
 			if (isX(c.X) && isY(c.Y)) || (isX(c.Y) && isY(c.X)) {
 				out[[2]int{b.Index, edge}] = true
 			}
+			// err == nil for err := check(x, y), a helper that returns nil exactly when its two arguments are equal
+			for _, pair := range [][2]ssa.Value{{c.X, c.Y}, {c.Y, c.X}} {
+				call, isCall := pair[0].(*ssa.Call)
+				if !isCall || !eng.IsNilConst(pair[1]) || call.Call.StaticCallee() == nil {
+					continue
+				}
+				if i, j, isEq := equalityErrHelper(call.Call.StaticCallee()); isEq && i < len(call.Call.Args) && j < len(call.Call.Args) {
+					ax, ay := call.Call.Args[i], call.Call.Args[j]
+					if (isX(ax) && isY(ay)) || (isX(ay) && isY(ax)) {
+						out[[2]int{b.Index, edge}] = true
+					}
+				}
+			}
 		}
 	}
 	return out
+}
+
+var eqHelperBusy = map[*ssa.Function]bool{}
+
+// equalityErrHelper: fn(.., a, .., b, ..) error returns the nil error exactly on the paths on which a == b is known
+// (parameters a and b of the same type): its nil returns are unreachable once the a == b edges are deleted, its
+// non-nil returns once the a != b edges are.
+func equalityErrHelper(fn *ssa.Function) (int, int, bool) {
+	if fn.Blocks == nil || !core.InModule(fn) || fn.Signature.Results().Len() != 1 || !eng.IsErrorType(fn.Signature.Results().At(0).Type()) || eqHelperBusy[fn] {
+		return 0, 0, false
+	}
+	eqHelperBusy[fn] = true
+	defer delete(eqHelperBusy, fn)
+	for i := range fn.Params {
+		for j := i + 1; j < len(fn.Params); j++ {
+			if !types.Identical(fn.Params[i].Type(), fn.Params[j].Type()) {
+				continue
+			}
+			pi, pj := fn.Params[i], fn.Params[j]
+			pass := eqPassEdges(fn, func(v ssa.Value) bool { return v == ssa.Value(pi) }, func(v ssa.Value) bool { return v == ssa.Value(pj) })
+			if len(pass) == 0 {
+				continue
+			}
+			fail := eng.EdgeSet{}
+			for k := range pass {
+				fail[[2]int{k[0], 1 - k[1]}] = true
+			}
+			noPass, noFail := eng.Reachable(fn.Blocks[0], pass), eng.Reachable(fn.Blocks[0], fail)
+			ok, nNil, nErr := true, 0, 0
+			for _, b := range fn.Blocks {
+				ret, isRet := b.Instrs[len(b.Instrs)-1].(*ssa.Return)
+				if !isRet {
+					continue
+				}
+				if eng.IsNilConst(ret.Results[0]) {
+					nNil++
+					ok = ok && !noPass[b]
+				} else {
+					nErr++
+					ok = ok && !noFail[b]
+				}
+			}
+			if ok && nNil > 0 && nErr > 0 {
+				return i, j, true
+			}
+		}
+	}
+	return 0, 0, false
 }
 
 // truePassEdges returns the edges on which a boolean call accepted by isCall is known to have returned true.
@@ -261,6 +322,9 @@ func errValueOfType(v ssa.Value, typ string, depth int) bool {
 		for _, b := range cal.Blocks {
 			for _, in := range b.Instrs {
 				if ret, ok := in.(*ssa.Return); ok && len(ret.Results) >= 1 {
+					if eng.IsNilConst(ret.Results[len(ret.Results)-1]) {
+						continue // the helper's success return: a caller that returns the value under `err != nil` never hands it on
+					}
 					n++
 					if !errValueOfType(ret.Results[len(ret.Results)-1], typ, depth+1) {
 						return false
